@@ -103,6 +103,15 @@ def worker(job):
         eng.witnesses = []
         if k.setup:
             k.setup(shape)
+        # a hard wall-clock bound per (kernel, shape) job: a hang becomes an inconclusive path
+        import signal
+        limit = int(os.environ.get('VERIF_SHAPE_TIMEOUT', '0') or 0) or (900 if opts.get('tier') == 'quick' else 5400)
+
+        def on_alarm(signum, frame):
+            eng.time_limit = 1e-9          # explore() stops after the current path
+            raise symx.Abort('budget', f'shape wall-clock limit of {limit}s exceeded')
+        signal.signal(signal.SIGALRM, on_alarm)
+        signal.alarm(limit)
 
         def on_path(outcome):
             if outcome == 'complete' and len(eng.witnesses) < eng.want_witnesses:
@@ -303,7 +312,7 @@ def main(prop, argv=None):
     jobs = []
     for k in kernels:
         for shape in k.shapes(tier):
-            jobs.append((prop, k.name, shape, {'max_paths': args.max_paths}))
+            jobs.append((prop, k.name, shape, {'max_paths': args.max_paths, 'tier': tier}))
     ctx = mp.get_context('fork')
     results = []
     kmap0 = {k.name: k for k in kernels}
@@ -317,7 +326,7 @@ def main(prop, argv=None):
             nchunks = min(len(fr), 8)
             for c in range(nchunks):
                 second.append((prop, r['kernel'], r['shape'],
-                               {'max_paths': args.max_paths, 'forced': fr[c::nchunks]}))
+                               {'max_paths': args.max_paths, 'forced': fr[c::nchunks], 'tier': tier}))
         for r in pool.imap_unordered(worker, second, chunksize=1):
             results.append(r)
     results.sort(key=lambda r: (r['kernel'], json.dumps(r['shape'], sort_keys=True)))
